@@ -855,8 +855,16 @@ def reject_kind(detail):
     m = re.search(r"sub=(\w+)", detail)
     if m:
         return m.group(1)
-    m = re.search(r"line=\[t \d+ (\w+)", detail)
-    return m.group(1) if m else "?"
+    m = re.search(r"line=\[t \d+ (\w+)((?: [^\]\s]+)*)", detail)
+    if not m:
+        return "?"
+    kind = m.group(1)
+    if kind == "HM_REQ":
+        # the heap manager's request hook logs the command number (after the bar, for push and fix): name it as the model does
+        f = m.group(2).split()
+        cmd = (f[1] if f and f[0].startswith("b") and len(f) > 1 else (f[0] if f else ""))
+        kind = {"0": "HM_SYNC", "1": "HM_PUSH", "2": "HM_ITERREQ", "3": "HM_FIX", "4": "HM_STATE", "5": "HM_END"}.get(cmd, "HM_REQ")
+    return kind
 
 
 def frames_check(ctx, relevant_kinds, monitor, n_quick, n_thorough, deps, nontrivial=lambda case, frames: len(frames) >= 2,
@@ -972,6 +980,7 @@ def c05_monitor(case, frames):
     # (queued = parked behind a bar that has not handed over yet; a bar queued after a bar whose second terminal frame has
     # already been flushed is pushed at once and must be in the next frame like any other bar)
     add_ret, queued, handed = {}, set(), set()
+    ho5 = dict((seq, b) for seq, b, ci in M.handovers(case))
     cyc_begin = None
     for l in case["trace"]:
         f = l.split()
@@ -979,8 +988,8 @@ def c05_monitor(case, frames):
             pre = int(f[4][7:]) if f[4].startswith("after=b") else int(f[4][6:])
             if pre not in handed:
                 queued.add(int(f[3][1:]))
-        elif f[2] == "CT_FLUSHBAR" and f[4] == "1" and not (len(f) > 8 and f[8] == "1"):
-            handed.add(int(f[3][1:]))
+        elif f[2] == "CT_FLUSHBAR" and int(f[1]) in ho5:
+            handed.add(ho5[int(f[1])])
         elif f[2] == "RET_ADD" and f[4] == "1":
             add_ret[int(f[3][1:])] = int(f[1])
         elif f[2] == "CT_RENDERBEGIN":
@@ -991,7 +1000,69 @@ def c05_monitor(case, frames):
                 if s_ret < cyc_begin and b not in queued and b not in seen_gone(case, b, cyc_begin) and b not in ids:
                     return ("bar %d was added (event %d) before the cycle at event %d began but is not in its frame" % (b, s_ret, cyc_begin),
                             "added-bar-missing-from-frame")
+    # the list handed to the shutdown notifier is the set of bars still in the container: every bar that was added, minus the bars
+    # that left legitimately (failed frame, replaced by a queued bar or removed on completion, popped out) and the bars still parked
+    # behind a bar that never handed over
+    for l in case["trace"]:
+        f = l.split()
+        if f[2] != "NOTIFY":
+            continue
+        listed = sorted(int(x) for x in (f[3].split(",") if len(f) > 3 and f[3] else []))
+        upto = int(f[1])
+        want = sorted(b for b in add_ret if b not in queued_still(case) and not left_container(case, b, upto))
+        if len(set(listed)) != len(listed):
+            return ("the shutdown notifier lists a bar twice: %s" % listed, "notifier-list")
+        if listed != want:
+            return ("the shutdown notifier lists bars %s, the bars still in the container are %s" % (listed, want), "notifier-list")
     return None
+
+
+def left_container(case, b, upto):
+    """bar b was not pushed back by flush before event upto: its frame failed, or it handed over to parked bars / was removed on
+    completion (flush with shutdown 1), or it was popped out (shutdown 2 in pop mode without no-pop); in the rest of a cycle in which
+    another bar's frame failed every bar goes back untouched"""
+    pop = case["cfg"][5] == "1"
+    parked_behind = set()
+    cycle_failed = False
+    for l in case["trace"]:
+        f = l.split()
+        if int(f[1]) >= upto:
+            break
+        if f[2] == "CT_RENDERBEGIN":
+            cycle_failed = False
+        elif f[2] == "CT_ADD" and f[4] != "after=-1":
+            parked_behind.add(int(f[4][7:]) if f[4].startswith("after=b") else int(f[4][6:]))
+        elif f[2] == "CT_FLUSHBAR":
+            x, sh, rm, np, err = int(f[3][1:]), int(f[4]), f[6] == "1", f[7] == "1", (len(f) > 8 and f[8] == "1")
+            if cycle_failed:
+                continue
+            if err:
+                cycle_failed = True
+                if x == b:
+                    return True
+                continue
+            if x != b:
+                continue
+            if sh == 1 and (b in parked_behind or (rm and not (pop and not np))):
+                return True
+            if sh == 2 and pop and not np:
+                return True
+    return False
+
+
+def queued_still(case):
+    """bars parked behind a predecessor that never handed over (they never entered the heap)"""
+    ho = dict((seq, b) for seq, b, ci in M.handovers(case))
+    parked, handed = {}, set()
+    for l in case["trace"]:
+        f = l.split()
+        if f[2] == "CT_ADD" and f[4] != "after=-1":
+            pre = int(f[4][7:]) if f[4].startswith("after=b") else int(f[4][6:])
+            if pre not in handed:
+                parked[int(f[3][1:])] = pre
+        elif f[2] == "CT_FLUSHBAR" and int(f[1]) in ho:
+            handed.add(ho[int(f[1])])
+    return set(b for b, pre in parked.items() if pre not in handed)
 
 
 def seen_gone(case, b, upto):
@@ -1029,7 +1100,8 @@ def check_C05(ctx):
                        "queued bars: any number per predecessor, created before or after the predecessor's hand-over"]
     frames_check(ctx, {"CT_FLUSHBAR", "HM_PUSH", "HM_POP", "OUT_ROWS", "OUT_UNEXPECTED", "CT_FRAME", "NOTIFY", "HM_SYNC",
                        "HM_ITERREQ", "CT_ADD", "HM_STATE", "HM_END"},
-                 c05_monitor, 150, 4000, CONT_DEPS | COVER_DEPS | {"GenChecks.v", "gen/GenApi.v", "Props/C05.v"})
+                 c05_monitor, 150, 4000, CONT_DEPS | COVER_DEPS | {"GenChecks.v", "gen/GenApi.v", "Props/C05.v"},
+                 fams=[("frames", 0.7, True), ("faults", 0.3, True)])   # the notifier's list is owed on the error path too
 
 
 import monitors as M
